@@ -31,6 +31,28 @@ from .c09 import Out, dimsig, e_table, is_log, l_scalar, l_table, mk_dim, rt_tol
 from .common import rat, unrat
 
 RULE_BASED = ["RF", "ET", "GBRT", "HGBRT", "MF", "BT"]
+_DRIVER = [None]  # the Lean driver of the running check (cells of the proved laws, checkPoint)
+_CELLS = {}
+
+
+def lean_cells(kind, lo, hi):
+    """cells (c1, c2) of every value of lo..hi from the Lean definitions flatCell / csCell, to which
+    C10_int_log_flat_law / C10_int_log_configspace_law refer; cross-checked with the closed forms"""
+    key = (kind, lo, hi)
+    if key not in _CELLS:
+        if _DRIVER[0] is None:
+            raise common.HarnessError("no Lean driver for the law cells")
+        rep = _DRIVER[0].ask({"op": "cells", "kind": kind, "lo": lo, "hi": hi})
+        cells = [(unrat(a), unrat(b)) for a, b in rep["cells"]]
+        if kind == "flat":
+            want = [(max(Fraction(k) - Fraction(1, 2), lo), min(Fraction(k) + Fraction(1, 2), hi)) for k in range(lo, hi + 1)]
+        else:
+            w = Fraction(hi - lo, hi - lo + 1)
+            want = [(lo + j * w, lo + (j + 1) * w) for j in range(hi - lo + 1)]
+        if cells != want:
+            raise common.HarnessError(f"Lean cells {kind} {lo}..{hi} differ from the closed form")
+        _CELLS[key] = cells
+    return _CELLS[key]
 P_TAIL = 1e-9
 
 
@@ -254,7 +276,9 @@ def structure_case(ck, d, seed):
         raw_values.append(value)
         import ConfigSpace.hyperparameters as csh
 
-        out = Out(lambda: problem.add_hyperparameter(value, name_arg) if not isinstance(value, csh.Hyperparameter) else problem.add_hyperparameter(value))
+        plural = isinstance(value, csh.Hyperparameter) and rng.random() < 0.5
+        out = Out(lambda: problem.add_hyperparameter(value, name_arg) if not isinstance(value, csh.Hyperparameter)
+                  else (problem.add_hyperparameters([value]) if plural else problem.add_hyperparameter(value)))
         steps.append("ok" if out.exc is None else err_kind(out.exc))
         adds.append({"value": shorthand_wire(value), "name": name_arg, "py": describe(value)})
         ck.count("add:" + (shorthand_wire(value)["k"]) + ":" + steps[-1])
@@ -297,6 +321,30 @@ def structure_case(ck, d, seed):
             ck.fail(f"C10|raises:{err_kind(rows.exc)}|{path}|declared-problem", "Space.rvs raises on an accepted problem", case, repr(rows.exc))
         else:
             check_points_by_name(ck, case, problem, rows.val, path)
+            problem_accessors(ck, case, problem, sp, rows.val)
+
+
+def problem_accessors(ck, case, problem, sp, rows):
+    """the rest of the declaration API, stated directly: len / [] / default_configuration / to_json, the code's own
+    `point in space`, and (flat problems) ConfigSpace's own legality check of every sampled point"""
+    names = list(problem.hyperparameter_names)
+    o = Out(lambda: (len(problem), [problem[nm].name for nm in names], problem.default_configuration, json.loads(problem.to_json())))
+    if o.exc is not None or o.val[0] != len(names) or o.val[1] != names or sorted(o.val[2]) != sorted(names) \
+            or not all(legal_value(problem.space[nm], o.val[2][nm], loose=True) for nm in names):
+        ck.mismatch(case, {"what": "HpProblem len / [] / default_configuration / to_json", "got": repr(o.exc or o.val[:3])[:300]})
+    for row in rows:
+        c = Out(lambda: row in sp)
+        if c.exc is not None or not c.val:
+            ck.fail("C10|support|Space.__contains__|sampled-point", "a point sampled by Space.rvs is not `in` the space", case,
+                    {"row": repr(row)[:300], "result": repr(c.exc or c.val)})
+            break
+    if sp.config_space is None:
+        for row in rows:
+            c = Out(lambda: problem.check_configuration(dict(zip(names, row))))
+            if c.exc is not None:
+                ck.fail("C10|support|HpProblem.check_configuration|sampled-point", "ConfigSpace rejects a point sampled on the flat path", case,
+                        {"row": repr(row)[:300], "error": repr(c.exc)[:200]})
+                break
 
 
 def legal_value(hp, v, loose):
@@ -321,13 +369,25 @@ def legal_value(hp, v, loose):
 
 def check_points_by_name(ck, case, problem, rows, path):
     names = list(problem.hyperparameter_names)
+    loose = path != "Space.rvs:flat"  # ConfigSpace's own paths: numeric ordinals come back NumPy-coerced
+    if _DRIVER[0] is not None and rows and all(len(r) == len(names) for r in rows):
+        # the verified checker (C10_checker_point) on the sampled points; the Python statement below must agree
+        hps = [cshp_wire(problem.space[nm]) for nm in names]
+        if not any(h["k"] == "other" for h in hps):
+            rep = _DRIVER[0].ask({"op": "check_point", "hps": hps, "loose": loose, "rows": [[tag(v) for v in r] for r in rows[:200]]})
+            py = [all(legal_value(problem.space[nm], v, loose=loose) for nm, v in zip(names, r)) for r in rows[:200]]
+            ck.count("lean-checkPoint")
+            if rep["legal"] != py:
+                k = [a == b for a, b in zip(rep["legal"], py)].index(False)
+                ck.mismatch(case, {"what": "checkPoint (Lean) and the Python statement of support-by-name disagree", "row": repr(rows[k])[:300],
+                                   "lean": rep["legal"][k], "python": py[k]})
     for row in rows:
         if len(row) != len(names):
             ck.fail(f"C10|support-by-name|{path}|row-length", "a point does not have one value per hyperparameter", case, {"row": repr(row)})
             return
         for nm, v in zip(names, row):
             hp = problem.space[nm]
-            if not legal_value(hp, v, loose=path != "Space.rvs:flat"):
+            if not legal_value(hp, v, loose=loose):
                 ck.fail(f"C10|support-by-name|{path}|{cshp_wire(hp)['k']}",
                         "a sampled value is not allowed by the declaration of the hyperparameter of that name (value and Python type)",
                         case, {"name": nm, "value": repr(v), "type": type(v).__name__, "declaration": repr(hp)[:200], "row": repr(row)[:300]})
@@ -352,16 +412,21 @@ def add_conditions(problem, rng):
     hps = list(problem.space.values())
     ncond = nforb = 0
     children = set()
+    used_parents = set()
     for _ in range(rng.choice([1, 1, 2])):
-        parents = [h for h in hps if len(values_of(h)) >= 2]
+        # no chains / cycles: a parent is never a child and a child never a parent (ConfigSpace does not roll a
+        # rejected cyclic condition back, which would leave the problem corrupted)
+        parents = [h for h in hps if len(values_of(h)) >= 2 and h.name not in children]
         if not parents:
             break
         parent = rng.choice(parents)
-        cands = [h for h in hps if h.name != parent.name and h.name not in children]
+        used_parents.add(parent.name)
+        cands = [h for h in hps if h.name != parent.name and h.name not in children and h.name not in used_parents]
         if not cands:
             break
         child = rng.choice(cands)
-        o = Out(lambda: problem.add_condition(cs.EqualsCondition(child, parent, rng.choice(values_of(parent)))))
+        cond = cs.EqualsCondition(child, parent, rng.choice(values_of(parent)))
+        o = Out(lambda: problem.add_conditions([cond]) if rng.random() < 0.5 else problem.add_condition(cond))
         if o.exc is None:
             ncond += 1
             children.add(child.name)
@@ -600,16 +665,16 @@ def end_fraction(n):
 
 
 def law_int_log_flat(lo, hi):
+    """P(k) = (L c2 - L c1) / (L hi - L lo) over the cells (c1, c2) = flatCell lo hi k (theorem C10_int_log_flat_law)"""
     span = math.log(hi) - math.log(lo)
-    return [(math.log(min(k + 0.5, hi)) - math.log(max(k - 0.5, lo))) / span for k in range(lo, hi + 1)]
+    return [(math.log(c2) - math.log(c1)) / span for c1, c2 in lean_cells("flat", lo, hi)]
 
 
 def law_int_log_configspace(lo, hi):
-    # ConfigSpace: exp(U[ln lo, ln hi]) quantized into hi-lo+1 equal bins of [lo, hi]
-    bins = hi - lo + 1
-    w = (hi - lo) / bins
+    """ConfigSpace: exp(U[ln lo, ln hi]) quantized into hi-lo+1 equal bins of [lo, hi]:
+    P(lo + j) = (L c2 - L c1) / (L hi - L lo), (c1, c2) = csCell lo hi j (theorem C10_int_log_configspace_law)"""
     span = math.log(hi) - math.log(lo)
-    return [(math.log(lo + (j + 1) * w) - math.log(lo + j * w)) / span for j in range(bins)]
+    return [(math.log(c2) - math.log(c1)) / span for c1, c2 in lean_cells("cs", lo, hi)]
 
 
 def judge_column(ck, path, hp_desc, col, case):
@@ -754,6 +819,9 @@ def judge_rows(ck, path, problem, descs, rows, base_case, child=None):
     Column i is judged against the declaration of the hyperparameter OF THAT NAME (value and Python type)."""
     names = list(problem.hyperparameter_names)
     on_cs = any(path.startswith(p) for p in CS_PATHS)
+    check_points_by_name(ck, {**base_case, "path": path}, problem,
+                         [[r[nm] for nm in names] if isinstance(r, dict) else r for r in rows[:200]],
+                         "Space.rvs:configspace" if on_cs else "Space.rvs:flat")
     cols = {}
     for i, nm in enumerate(names):
         cols[nm] = [r[nm] if isinstance(r, dict) else r[i] for r in rows]
@@ -1011,6 +1079,36 @@ def rvs_history_case(ck, seed):
         fail("restore", "after restoring the saved transformers a seeded Space.rvs differs from the first call")
 
 
+def cs_int_log_case(ck, d, rng):
+    """ConfigSpace's UniformIntegerHyperparameter(log=True).sample_value under a scripted stream vs its model csIntLogSample
+    (the function C10_int_log_configspace_law is about)"""
+    import ConfigSpace.hyperparameters as csh
+
+    lo = rng.choice([1, 1, 2, 3, 8, 10, 100])
+    hi = lo + rng.choice([1, 2, 3, 7, 14, 63, 1000, 10 ** 5])
+    m = rng.choice([1, 4, 16])
+    us = [rng.choice([0.0, float(np.nextafter(1.0, 0.0)), 0.5]) if rng.random() < 0.15 else rng.random() for _ in range(m)]
+    hp = csh.UniformIntegerHyperparameter("q", lo, hi, log=True)
+    out = Out(lambda: hp.sample_value(m, seed=scripted_state(us)))
+    case = {"kind": "configspace-int-log", "lo": lo, "hi": hi, "us": us}
+    ck.case(case)
+    ck.count("cs-int-log")
+    if out.exc is not None:
+        raise common.HarnessError("ConfigSpace sample_value under the scripted stream: %r" % out.exc)
+    llo, lhi = float(np.log(lo)), float(np.log(hi))
+    keys = np.asarray(us, dtype=float) * (lhi - llo) + llo
+    rep = d.ask({"op": "cs_int_log", "lo": lo, "hi": hi, "us": [rat(u) for u in us],
+                 "L": [[rat(lo), rat(llo)], [rat(hi), rat(lhi)]],
+                 "E": [[rat(float(k)), rat(float(v))] for k, v in zip(keys, np.exp(keys))]})
+    real = [int(v) for v in np.asarray(out.val).tolist()]
+    if real != rep["vals"]:
+        # a draw within float rounding of a bin edge may fall on either side
+        w = (hi - lo) / (hi - lo + 1)
+        edge = any(abs(((float(np.exp(k)) - lo) / w) % 1.0 - 0.5) > 0.5 - 1e-9 for k in keys)
+        if not (edge and all(abs(a - b) <= 1 for a, b in zip(real, rep["vals"]))):
+            ck.mismatch(case, {"what": "ConfigSpace integer log-uniform sampler vs its model (csIntLogSample)", "impl": real, "model": rep["vals"]})
+
+
 def corpus_cases():
     dd = common.VERIF / "corpus" / "C10"
     for f in sorted(dd.glob("*.json")):
@@ -1089,11 +1187,15 @@ def run(ck):
     ]
     ck.trusted_extra = ["SciPy/NumPy random generators", "ConfigSpace 1.2 constructors and samplers"]
     rng = ck.rng
-    n = ck.pick(20000, 60000)
+    n = ck.pick(15000, 60000)
     with ck.driver() as d:
+        _DRIVER[0] = d
+        _CELLS.clear()
         for name, case in corpus_cases():
             ck.count("corpus")
             run_corpus_case(ck, d, case)
+        for _ in range(ck.pick(150, 1500)):
+            cs_int_log_case(ck, d, rng)
         for _ in range(ck.pick(300, 3000)):
             structure_case(ck, d, rng.randint(0, 2 ** 30))
         for _ in range(ck.pick(150, 1200)):
@@ -1105,11 +1207,13 @@ def run(ck):
         for _ in range(ck.pick(2, 7)):
             law_case(ck, d, rng.randint(0, 2 ** 20), n)
         for _ in range(ck.pick(1, 3)):
-            small_calls_case(ck, rng.randint(0, 2 ** 20), ck.pick(400, 800))
+            small_calls_case(ck, rng.randint(0, 2 ** 20), ck.pick(300, 800))
 
 
 def replay(ck, case):
     with ck.driver() as d:
+        _DRIVER[0] = d
+        _CELLS.clear()
         if case.get("kind") in ("normalized-law", "weights", "declared-problem"):
             run_corpus_case(ck, d, case)
         elif case.get("kind") == "rvs-history":
